@@ -286,28 +286,56 @@ def rule_g5(repo, col):
                 problems.append(("the replacement must be a disjunction", node))
         if p.end == "fall":
             problems.append(("add_disjunct can fall off its end (returns None = FALSE key)", f.node))
-    # scenario table over the finite domain of component kinds
+    # scenario table over concrete values: a disjunction with the children (11, 12); the component is None / TRUE / an old child / a new child; duplicates kept or not;
+    # max_arity 0 (unbounded), 2 (the node is full), 5 (room left).  Conditions and the replacement node are folded on these values.
+    from ..astutil import const_value
+
+    def _leaves(v):
+        if isinstance(v, tuple) and len(v) == 3 and v[0] == "<call>":
+            if v[1] in ("self.add_or", "self._create_disj") and v[2]:
+                return _leaves(v[2][0])
+            raise AnalysisError("add_disjunct: replacement built with %s; not understood" % v[1])
+        if isinstance(v, (tuple, list)):
+            out = []
+            for x in v:
+                out.extend(_leaves(x))
+            return out
+        return [v]
+
     nodeexpr = "self.get_node(%s)" % key
-    for compv, present, kd, full, expect in (
-        (None, False, False, False, "none"), (0, False, False, False, "true"), (7, True, False, False, "none"), (7, True, True, False, "add"),
-        (7, False, False, False, "add"), (7, False, False, True, "add"), (7, False, True, True, "add"),
+    C = (11, 12)
+    for compv, kd, ma, expect in (
+        (None, False, 0, "none"), (0, False, 0, "true"), (11, False, 0, "none"), (11, True, 0, "add"), (7, False, 0, "add"), (7, False, 2, "add"), (7, True, 2, "add"),
+        (7, False, 5, "add"), (11, True, 2, "add"),
     ):
+        present = compv in C
         mapping = [("self.is_true(%s)" % key, False), ("self.is_false(%s)" % key, False), ("type(%s).__name__ == 'disj'" % nodeexpr, True),
-                   ("%s in %s.children" % (comp, nodeexpr), present), ("self._keep_duplicates", kd),
-                   ("0 < self._max_arity == len(%s.children)" % nodeexpr, full), (comp, compv)]
+                   ("%s.children" % nodeexpr, C), ("self._keep_duplicates", kd), ("self._max_arity", ma), (comp, compv)]
         fe = dtable.feasible(paths, mapping)
         if len(fe) != 1:
             raise AnalysisError("add_disjunct: %d feasible paths for component=%r present=%s" % (len(fe), compv, present))
         pth = fe[0]
         ups = [a for fn, a, _ in pth.calls if fn == "self._update"]
-        what = "component None" if compv is None else "the TRUE key (0)" if compv == 0 else "a %s child%s" % ("present" if present else "new", " with keep_duplicates" if kd else "")
+        what = "component None" if compv is None else "the TRUE key (0)" if compv == 0 else "a %s child%s%s" % (
+            "present" if present else "new", " with keep_duplicates" if kd else "", " into a full node (max_arity %d)" % ma if ma == len(C) else "")
         if expect == "none" and ups:
             problems.append(("adding %s must leave the node unchanged" % what, pth.stmts[-1]))
         if expect == "true" and not (ups and "(0,)" in ups[-1][1]):
             problems.append(("adding the TRUE key must turn the node into a disjunction containing TRUE (found %s): otherwise a deterministic proof that arrives after a "
                              "probabilistic one is ignored and the node keeps its old meaning" % ("no update" if not ups else ups[-1][1][:60]), pth.stmts[-1]))
-        if expect == "add" and not (ups and comp in ups[-1][1]):
-            problems.append(("adding %s must update the node with the component" % what, pth.stmts[-1]))
+        if expect == "add":
+            if not ups:
+                problems.append(("adding %s must update the node with the component" % what, pth.stmts[-1]))
+            else:
+                e_ = dtable._Scenario([(norm(ast.parse(k_, mode="eval").body), v_) for k_, v_ in mapping]).visit(ast.parse(ups[-1][1], mode="eval").body)
+                okf, val = const_value(e_, {"__opaque_calls__": True})
+                if not okf:
+                    raise AnalysisError("add_disjunct: replacement node not foldable: %s" % ups[-1][1][:100])
+                got = sorted(_leaves(val), key=repr)
+                want = sorted(C + (compv,), key=repr)
+                if got != want:
+                    problems.append(("adding %s to the children %s must give a node over %s; the replacement %s covers %s - a disjunct is lost (or invented) and the key returned "
+                                     "earlier denotes another function" % (what, list(C), want, ups[-1][1][:70], got), pth.stmts[-1]))
         if not (pth.end == "return" and pth.value == key):
             problems.append(("add_disjunct must return the key (found %s %s)" % (pth.end, pth.value), pth.stmts[-1]))
     if n_upd < 2:
